@@ -50,14 +50,14 @@ def Heap.create (h : Heap) (k : Key) : Heap :=
 /-- `ss` with the shard erased (the `delete(epShards.Shards, shard)` of `deleteServiceInner`). -/
 def eraseShard (ss : ShardSet) (sk : ShardKey) : ShardSet := { ss with shards := aerase ss.shards sk }
 
-/-- `deleteServiceInner` on the linked object of `k`. -/
+/-- `deleteServiceInner` on the linked object of `k`: erase the shard; unlink when nothing is left
+    and keys are not preserved. -/
 def Heap.deleteInner (h : Heap) (sk : ShardKey) (k : Key) (preserveKeys : Bool) : Heap :=
   if h.linked k then
-    let ss' := eraseShard (h.obj k (h.gen k)) sk
-    let h' := h.setObj k (h.gen k) ss'
-    if !preserveKeys && ss'.shards.isEmpty then
-      { h' with linked := fun k' => if k' = k then false else h.linked k' }
-    else h'
+    { obj := fun k' g' => if k' = k ∧ g' = h.gen k then eraseShard (h.obj k (h.gen k)) sk else h.obj k' g',
+      gen := h.gen,
+      linked := fun k' =>
+        if k' = k then !(!preserveKeys && (eraseShard (h.obj k (h.gen k)) sk).shards.isEmpty) else h.linked k' }
   else h
 
 /-- `DeleteShard` / `PruneShard`: `deleteServiceInner(sk, k, false)` for every linked entry not in
